@@ -761,7 +761,7 @@ def slice_mesh_plane(
             f = inverse[faces]
             # remove degenerate faces by checking to make sure
             # that each face has three unique indices
-            f = f[(f[:, :1] != f[:, 1:]).all(axis=1)]
+            f = f[(f[:, :1] != f[:, 1:]).all(axis=1) & (f[:, 1] != f[:, 2])]
             # transform to the cap plane
             to_2D = geometry.plane_transform(origin=origin, normal=-normal)
             to_3D = np.linalg.inv(to_2D)
